@@ -66,6 +66,7 @@ type PathResult struct {
 	Choices        []choiceRec
 	Observes       []obsRec
 	ParseFloatArgs [][]*Term
+	pfMemo         map[string]*Term
 	GlobalStores   map[string]bool
 	Candidates     []*Candidate
 	AllocLimit     int
@@ -98,6 +99,10 @@ func (p *PathResult) noteGlobalStore(where string) {
 func (p *PathResult) concreteValues(e *Engine, m Model) map[string]uint64 {
 	vals := map[string]uint64{}
 	for _, in := range p.Inputs {
+		if in.T.IsConst() {
+			vals[in.Name] = in.T.C
+			continue
+		}
 		vals[in.Name] = m[in.Name] & mask(in.W)
 	}
 	for _, c := range p.Choices {
@@ -152,7 +157,9 @@ type HarnessSpec struct {
 
 type HarnessRun struct {
 	HarnessSpec
-	fn *ssa.Function
+	fn    *ssa.Function
+	Fixed map[string]uint64 // concrete mode: values for named inputs
+	Trace bool
 
 	mu         sync.Mutex
 	Paths      map[string]int // status -> count
